@@ -1390,6 +1390,8 @@ func makeStructArshaler(t reflect.Type) *arshaler {
 					if !v.IsValid() {
 						err := newUnmarshalErrorBefore(dec, t, errNilField)
 						if !uo.Flags.Get(jsonflags.ReportErrorsWithLegacySemantics) {
+							uo.Flags = flagsOriginal
+							uo.Format = ""
 							return err
 						}
 						errUnmarshal = cmp.Or(errUnmarshal, err)
